@@ -30,6 +30,26 @@ var fragMore = []string{
 
 func fragAll() []string { return append(append([]string{}, fragCore...), fragMore...) }
 
+// fragExotic: unusual but possible syntax, enumerated together with the core (not part of F, to keep |F|^3 small).
+var fragExotic = []string{
+	// self-closing forms of every class
+	"<textarea/>", "<title/>", "<object/>", "<iframe/>", "<a href=\"http://e.x/\"/>", "<p/>", "<my-x id=a/>", "<img src=x/>", "<script src=x/>",
+	// every void element, bare and with an attribute
+	"<source>", "<input>", "<embed>", "<area>", "<track>", "<link>", "<meta>", "<param>", "<base>", "<col>", "<hr>", "<wbr>", "<area href=\"/x\">", "<source src=x>",
+	// end-tag oddities
+	"</B>", "</b x=1>", "</b/>", "</p\n>", "</ b>", "</br>", "</my-y>", "</object>", "</title >",
+	// separators and odd characters inside tags
+	"<b\n>", "<b\tid=q>", "<p\x0cid=a>", "<b\x00>", "<a\x00b>", "<p id=a/x=y>", "<p id = a>", "<p id=\"a\"title=t>", "<i id=q id=r>", "<p ID=A>",
+	// non-ASCII look-alikes of allowed names
+	"<\u212a>", "<lin\u212a>", "<t\u0130tle>", "<p\u0307>", "<\uff42>",
+	// skip-set elements with attributes, nested skip openers
+	"<object data=x>", "<iframe src=x>", "<frame src=x>", "<noscript>", "</noscript>", "<noframes>", "<nostyle>",
+	// attribute values with escapable characters, data attributes
+	"<b title=\"a&amp;b&lt;c&gt;&#34;d\">", "<span data-k=\"a&amp;b\" id=q>", "<a href=\"/x?a=1&amp;b=2\">", "<a href=\"/x\" rel=\"x\" target=\"_blank\">",
+}
+
+func fragCoreExotic() []string { return append(append([]string{}, fragCore...), fragExotic...) }
+
 // byteAlpha: B, for shallow byte-exhaustive runs.
 var byteAlpha = []byte{'<', '>', '/', '!', '-', '?', '=', '"', '\'', '&', ';', '#', ' ', '\t', '\n', 0, 'a', 'b', 's', 'x', '0', 0xc3}
 
